@@ -153,7 +153,7 @@ func maxRecv() {
 		before := attached
 		h.Feed(hdr)
 		kit.Quiesce()
-		kit.Sleep(50 * time.Millisecond)
+		kit.Sleep(2 * time.Second)
 		kit.Quiesce()
 		if attached != before+1 {
 			kit.Failf("setup", "connection did not attach")
